@@ -28,7 +28,7 @@ ASSUMPTIONS = ['docstrings of sismic.model.Statechart are the specification of e
                'the code there; only the listed soundness rules are judged',
                'states added by the workload carry no dangling initial/memory of their own']
 OPS = ['add_state', 'remove_state', 'rename_state', 'move_state', 'add_transition', 'remove_transition', 'rotate_transition']
-REQUIRED_COUNTERS = ['removed_object_added_again', 'history_state_as_initial', 'removed_name_reused', 'ops_ok', 'ops_rejected', 'views_compared', 'atomicity_checks', 'rejected_partially_valid'] + \
+REQUIRED_COUNTERS = ['held_transition_object_reused', 'removed_object_added_again', 'history_state_as_initial', 'removed_name_reused', 'ops_ok', 'ops_rejected', 'views_compared', 'atomicity_checks', 'rejected_partially_valid'] + \
     ['ok_' + o for o in OPS] + ['rejected_' + o for o in OPS]
 KIND = {BasicState: 'basic', CompoundState: 'compound', OrthogonalState: 'orthogonal', FinalState: 'final',
         ShallowHistoryState: 'shallow', DeepHistoryState: 'deep'}
@@ -39,6 +39,10 @@ COMPOSITE = ('compound', 'orthogonal')
 
 def plan(tier):
     return dict(cases=16000 if tier == 'quick' else 200000, shards=16, timeout=900 if tier == 'quick' else 3600)
+
+
+def sig(t):
+    return (t.guard, t.action, tuple(t.preconditions), tuple(t.postconditions), tuple(t.invariants))
 
 
 def view(sc):
@@ -64,7 +68,9 @@ class Model:
 
     def __init__(self):
         self.st = {}        # name -> dict(kind, parent, children=set, initial, memory)
-        self.tr = []        # list of [source, target, event, priority]
+        self.tr = []        # list of [source, target, event, priority, oid, sig]  (oid = id() of the real Transition object;
+                            # sig = the other fields Transition.__eq__ looks at: guard, action, contracts)
+        self.loose = {}     # oid -> last known value of a Transition object that is not registered (any more)
 
     def anc(self, n):
         out = []
@@ -88,6 +94,12 @@ class Model:
         tr = Counter((t[0], t[1], t[2], t[1] is None, t[3]) for t in self.tr)
         roots = [n for n, s in self.st.items() if s['parent'] is None]
         return v, tr, (roots[0] if roots else None)
+
+    def value_of(self, oid):
+        for t in self.tr:
+            if t[4] == oid:
+                return tuple(t[:4]) + (t[5],)
+        return self.loose.get(oid)
 
     def desc(self, n):
         out = []
@@ -127,6 +139,9 @@ class Model:
         if name not in self.st:
             raise Model.Rejected('unknown')
         gone = set([name] + self.desc(name))
+        for t in self.tr:
+            if (t[0] in gone or t[1] in gone) and t[4] is not None:
+                self.loose[t[4]] = tuple(t[:4]) + (t[5],)
         self.tr = [t for t in self.tr if t[0] not in gone and t[1] not in gone]
         p = self.st[name]['parent']
         for g in gone:
@@ -183,28 +198,35 @@ class Model:
             if o['kind'] in ('shallow', 'deep') and o['memory'] == name:
                 o['memory'] = None
 
-    def add_transition(self, source, target, event, priority):
+    def add_transition(self, source, target, event, priority, oid=None, sig=None):
         if source not in self.st:
             raise Model.Rejected('unknown source')
         if self.st[source]['kind'] not in TKINDS:
             raise Model.Rejected('source cannot own transitions')
         if target is not None and target not in self.st:
             raise Model.Rejected('unknown target')
-        self.tr.append([source, target, event, priority])
+        self.tr.append([source, target, event, priority, oid, sig])
+        self.loose.pop(oid, None)
 
     def remove_transition(self, key):
         for t in self.tr:
-            if tuple(t) == key:
+            if tuple(t[:4]) + (t[5],) == key:
                 self.tr.remove(t)
+                if t[4] is not None:
+                    self.loose[t[4]] = key
                 return
         raise Model.Rejected('no such transition')
 
-    def rotate_transition(self, key, new_source, new_target):
+    def rotate_transition(self, key, new_source, new_target, oid=None):
         if new_source == '' and new_target == '':
             raise ValueError('both empty')
-        t = next((t for t in self.tr if tuple(t) == key), None)
-        if t is None:
+        if not any(tuple(t[:4]) + (t[5],) == key for t in self.tr):
             raise Model.Rejected('no such transition')
+        # "Rotate given transition": the object that is passed is the one that changes (an equal but unregistered object is
+        # accepted by the membership test, and then only that object changes - the statechart does not)
+        t = next((t for t in self.tr if t[4] == oid and oid is not None), None)
+        if t is None and oid is None:
+            t = next(t for t in self.tr if tuple(t[:4]) + (t[5],) == key)
         if new_source != '':
             if new_source not in self.st:
                 raise Model.Rejected('unknown source')
@@ -212,6 +234,14 @@ class Model:
                 raise Model.Rejected('source cannot own transitions')
         if new_target != '' and new_target is not None and new_target not in self.st:
             raise Model.Rejected('unknown target')
+        if t is None:
+            v = list(key)
+            if new_source != '':
+                v[0] = new_source
+            if new_target != '':
+                v[1] = new_target
+            self.loose[oid] = tuple(v)
+            return
         if new_source != '':
             t[0] = new_source
         if new_target != '':
@@ -268,7 +298,7 @@ def run_case(acc, rnd, tier, case):
     else:
         ch = gen_chart(rnd, max_states=rnd.choice((6, 10, 14)), max_depth=4, max_trans=10, p_hist=0.4, p_final=0.3,
                        mode=rnd.choice((None, 'history', 'orth', 'clash')))
-        sc, _ = build.build_api(ch)
+        sc, tm = build.build_api(ch)
         for n in ch['order']:
             s = ch['states'][n]
             ini = s['initial']
@@ -278,8 +308,9 @@ def run_case(acc, rnd, tier, case):
                 sc.state_for(n).initial = ini
                 acc.count('history_state_as_initial')
             m.add_state(n, s['kind'], s['parent'], ini, s['memory'])
+        by_id = {tm[id(x)]: x for x in sc.transitions}
         for t in ch['transitions']:
-            m.add_transition(t['source'], t['target'], t['event'], t['priority'])
+            m.add_transition(t['source'], t['target'], t['event'], t['priority'], oid=id(by_id[t['id']]), sig=sig(by_id[t['id']]))
     if view(sc) != m.view():
         acc.violation('C16:initial-view', 'view after construction differs from the model', dict(real=view(sc), model=m.view()))
         return
@@ -287,6 +318,8 @@ def run_case(acc, rnd, tier, case):
     history = []
     removed = []
     removed_objs = {}
+    held = []           # Transition objects the 'client' keeps a reference to across operations
+    keepalive = list(sc.transitions)    # every Transition object whose id() the model knows stays alive (ids are never re-used)
     for k in range(nops):
         names = sc.states
 
@@ -363,11 +396,17 @@ def run_case(acc, rnd, tier, case):
                 pr = rnd.choice([0, 0, 1, -1])
                 call = ('add_transition', a, b, ev, pr)
                 partially_valid = (a in names) != (b is None or b in names)
-                mm = lambda: m.add_transition(a, b, ev, pr)                          # noqa: E731
-                rr = lambda: sc.add_transition(Transition(a, b, event=ev, priority=pr))   # noqa: E731
+                newt = Transition(a, b, event=ev, priority=pr)
+                held.append(newt)
+                keepalive.append(newt)
+                mm = lambda: m.add_transition(a, b, ev, pr, oid=id(newt), sig=sig(newt))            # noqa: E731
+                rr = lambda: sc.add_transition(newt)                                 # noqa: E731
             elif op == 'remove_transition':
                 ts = sc.transitions
-                if ts and rnd.random() < 0.85:
+                if held and rnd.random() < 0.3:
+                    t = rnd.choice(held)        # an object used in an earlier call
+                    acc.count('held_transition_object_reused')
+                elif ts and rnd.random() < 0.85:
                     t = rnd.choice(ts)
                     if rnd.random() < 0.3:       # an equal copy designates the same transition
                         t = Transition(t.source, t.target, event=t.event, guard=t.guard, action=t.action, priority=t.priority)
@@ -376,28 +415,35 @@ def run_case(acc, rnd, tier, case):
                         t.preconditions, t.postconditions, t.invariants = list(o.preconditions), list(o.postconditions), list(o.invariants)
                 else:
                     t = Transition(pick(), pick(), event='never')
-                key = (t.source, t.target, t.event, t.priority)
-                call = ('remove_transition',) + key
+                keepalive.append(t)
+                key = m.value_of(id(t)) or (t.source, t.target, t.event, t.priority, sig(t))
+                call = ('remove_transition',) + key[:4]
                 mm = lambda: m.remove_transition(key)    # noqa: E731
                 rr = lambda: sc.remove_transition(t)     # noqa: E731
             else:
                 ts = sc.transitions
-                if ts and rnd.random() < 0.9:
+                if held and rnd.random() < 0.3:
+                    t = rnd.choice(held)
+                    acc.count('held_transition_object_reused')
+                elif ts and rnd.random() < 0.9:
                     t = rnd.choice(ts)
+                    if rnd.random() < 0.4:
+                        held.append(t)
                 else:
                     t = Transition(pick(), pick(), event='never')
-                key = (t.source, t.target, t.event, t.priority)
+                keepalive.append(t)
+                key = m.value_of(id(t)) or (t.source, t.target, t.event, t.priority, sig(t))
                 kw = {}
                 if rnd.random() < 0.65:
                     kw['new_source'] = pick(0.2)
                 if rnd.random() < 0.65:
                     kw['new_target'] = None if rnd.random() < 0.2 else pick(0.25)
-                call = ('rotate_transition',) + key + (dict(kw),)
+                call = ('rotate_transition',) + key[:4] + (dict(kw),)
                 ns, nt = kw.get('new_source', ''), kw.get('new_target', '')
                 ok_s = ns == '' or (ns in names and KIND[type(sc.state_for(ns))] in TKINDS)
                 ok_t = nt == '' or nt is None or nt in names
                 partially_valid = len(kw) == 2 and (ok_s != ok_t)
-                mm = lambda: m.rotate_transition(key, ns, nt)        # noqa: E731
+                mm = lambda: m.rotate_transition(key, ns, nt, oid=id(t))        # noqa: E731
                 rr = lambda: sc.rotate_transition(t, **kw)           # noqa: E731
         except StopIteration:
             break
